@@ -50,6 +50,9 @@ def exclude_lists(m, sc, rnd):
     if members:
         f0 = rnd.choice(sorted(members))
         out.append((["/" + rel(m, f0).upper(), "*.H"], set()))
+        # a leading "/" anchors the pattern at the root (no file of that name lies directly there), and "./" is
+        # not a way to spell "here" in a pattern: both match nothing - validated with git check-ignore
+        out.append((["/" + os.path.basename(rel(m, f0)), "./" + rel(m, f0)], set()))
     hs = {f for f in members if f.endswith(".h")}
     if hs:
         out.append((["*.h"], hs))
@@ -129,7 +132,7 @@ def replay_chunk(args):
                     break
             # CLI: -x P  vs  [codebase] exclude = [P]
             if cli_every and si % cli_every == 0:
-                pats, excluded = exclude_lists(m, sc, rnd)[-1]
+                pats, excluded = rnd.choice(exclude_lists(m, sc, rnd))
                 dbs = {}
                 for p in plats:
                     dbp = os.path.join(base, f"db_{p}.json")
